@@ -540,6 +540,7 @@ func (world) Run(input any) kit.Case {
 		}
 	}
 	if staleRestart {
+		c.Tags = append(c.Tags, "experiment-reconcile-on-stale-completed-cache-after-restart")
 		// F18: an experiment reconcile ran on a cached completed experiment after the stored one had been restarted
 		if k := kit.KeyIf("C16", "cleanup-on-stale-completed-experiment", h.Cfg.Resume == "FromVolume"); k != "" && c.Keys["C16"] == "" {
 			c.Keys["C16"] = k
